@@ -226,7 +226,7 @@ VH_MAIN {
             ASSERT(err != NC_NOERR, "an error of the write batch is returned by wait");
         }
         if (r >= 0 && in.wg_rc[r] != NC_NOERR) ASSERT(err != NC_NOERR, "an error of the read batch is returned by wait");
-#if DBG_NREQ < NP || NG > 0
+#if NP >= 2 && (DBG_NREQ < NP || NG > 0)
         COVER(exp_w > 0 && nnamed_p < np && err == NC_NOERR, "partial wait: some put requests stay pending");
 #endif
 #if NG > 0
